@@ -654,7 +654,7 @@ impl Check for C14 {
         "C14"
     }
     fn rule(&self) -> String {
-        "proptest choice sequences -> 1..3 real files (names with spaces, quotes, non-ASCII, sub-directories; tabs; CRLF) built from bundles of diagnostic producers: validation-phase errors + all four doc/deprecation lints (spans single-line / multi-line, notes with and without span), attribute-phase errors carrying user text (quotes, backslashes, control and non-ASCII characters, 190 characters), syntax errors (zero-width span at end of input), I/O errors (no span), duplicate files, lints only, nothing at all; x {human, json} x colours {forced on, off, --disable-color} x five -A lists. Oracle: the emitter's output (library level, Vec<u8>) is parsed back: JSON = exactly one object per non-silenced diagnostic, in order, with exactly the five keys equal to the accessors, nothing else; human = header, location line, snippet (line numbers start.row..=end.row, tab = 4 cells, underline exactly the spanned cells, zero-width pointer) and notes for every non-silenced diagnostic in order, nothing else; silenced lints leave no trace; no ESC with colours disabled; binary: stderr equals the library output, totals on stdout equal the header counts (none in JSON mode), exit status 1 <=> errors. Non-trivial = >= 2 diagnostics or text that needs JSON escaping".into()
+        "proptest choice sequences -> 1..3 real files (names with spaces, quotes, non-ASCII, sub-directories; tabs; CRLF) built from bundles of diagnostic producers: validation-phase errors + all four doc/deprecation lints (spans single-line / multi-line, notes with and without span), attribute-phase errors carrying user text (quotes, backslashes, control and non-ASCII characters, 190 characters), syntax errors (zero-width span at end of input), I/O errors (no span), duplicate files, lints only, nothing at all; x {human, json} x colours {forced on, off, --disable-color} x five -A lists. Oracle: the emitter's output (library level, Vec<u8>) is parsed back: JSON = exactly one object per non-silenced diagnostic, in order, with exactly the five keys equal to the accessors, nothing else; human = header, location line, snippet (line numbers start.row..=end.row, tab = 4 cells, underline exactly the spanned cells, zero-width pointer) and notes for every non-silenced diagnostic in order, nothing else; silenced lints leave no trace; no ESC with colours disabled; binary (generators drawn when there is no error: succeeding, missing, failing, succeeding with diagnostics of their own in the reply): stderr equals the library output plus exactly one E001 per failing generator, totals on stdout equal the header counts (none in JSON mode), exit status 1 <=> errors. Non-trivial = >= 2 diagnostics or text that needs JSON escaping".into()
     }
     fn assumptions(&self) -> Vec<String> {
         vec![
